@@ -37,7 +37,9 @@ R5  == {C("argtype", callee, p, q, p # q) : callee \in {"fn", "method", "closure
 R6  == {C("undefined", k, "", "", TRUE) : k \in {"var", "fn", "type", "field", "method", "module"}}
        \cup {C("undefined", k, "declared", "", FALSE) : k \in {"var", "fn", "type", "field", "method"}}
 R7  == {C("redeclared", k, same, "", same = "same") : k \in {"let", "param", "fn", "type", "const"}, same \in {"same", "other"}}
-R8  == {C("return", v, "", "", v # "ok") : v \in {"ok", "wrongtype", "missingvalue", "valueinvoid", "narrow"}}
+(* b = "afterlit": the function's body holds a function literal with ANOTHER return type before the return *)
+R8  == {C("return", v, w, "", v # "ok") : v \in {"ok", "wrongtype", "missingvalue", "valueinvoid", "narrow", "optional", "bang"},
+                                           w \in {"", "afterlit"}}
 (* comparing an optional with a value is not a use "where T is required": not demanded *)
 R9  == {C("optional", use, h, "", h = "raw") : use \in {"arith", "assign", "arg", "ret"}, h \in {"raw", "coalesced"}}
 R10 == {C("field", v, "", "", v # "ok") : v \in {"ok", "unknownlit", "missinglit", "mistypedlit", "unknownaccess", "mistypedassign"}}
